@@ -98,6 +98,10 @@ pub fn exec(func: &str, a: &mut Args) -> String {
             match x.clip_line_parameters(&o, &d) { None => "none".into(), Some((t0, t1)) => format!("some {} {}", ff(t0), ff(t1)) } }
         "clip_ray_params" => { let x = aabb(a); let o = d3::p(a); let d = d3::v(a);
             match x.clip_ray_parameters(&Ray::new(o, d)) { None => "none".into(), Some((t0, t1)) => format!("some {} {}", ff(t0), ff(t1)) } }
+        "clip_line_seg" => { let x = aabb(a); let o = d3::p(a); let d = d3::v(a);
+            match x.clip_line(&o, &d) { None => "none".into(), Some(s) => format!("some {} {}", d3::fp(&s.a), d3::fp(&s.b)) } }
+        "clip_ray_seg" => { let x = aabb(a); let o = d3::p(a); let d = d3::v(a);
+            match x.clip_ray(&Ray::new(o, d)) { None => "none".into(), Some(s) => format!("some {} {}", d3::fp(&s.a), d3::fp(&s.b)) } }
         "clip_seg" => { let x = aabb(a); let pa = d3::p(a); let pb = d3::p(a);
             match x.clip_segment(&pa, &pb) { None => "none".into(), Some(s) => format!("some {} {}", d3::fp(&s.a), d3::fp(&s.b)) } }
         "clip_hs_poly" => { let c = d3::p(a); let n = d3::v(a); let poly = pts(a);
@@ -568,7 +572,7 @@ pub fn gen(r: &mut Rng, thorough: bool) -> Vec<(String, String)> {
                 5 => (x.maxs - o) * *r.pick(&[1.0, -1.0, 0.5, 2.0]),   // through a vertex
                 _ => { let s = if lat { 1.0 } else { r.logu(1e-3, 1e3) }; d3::gen_v(r, lat, 2.0) * s } };
             let args = format!("{} {} {}", haabb(&x), d3::hp(&o), d3::hv(&d));
-            for f in ["clip_line", "clip_line_params", "clip_ray_params"] { v.push((f.to_string(), args.clone())); }
+            for f in ["clip_line", "clip_line_params", "clip_ray_params", "clip_line_seg", "clip_ray_seg"] { v.push((f.to_string(), args.clone())); }
             // segment: [o, o + d] and variants that stop short of / start beyond the box
             let pb = o + d;
             v.push(("clip_seg".into(), format!("{} {} {}", haabb(&x), d3::hp(&o), d3::hp(&pb))));
